@@ -24,7 +24,7 @@
 #include <time.h>
 
 enum { F_BACKGROUND, F_FOREGROUND, F_MULTI_SENDER, F_LONG_MESSAGE, F_FILTERED_CALLS, F_LEVEL_CHANGE, F_EMPTY_MESSAGE, F_SHUTDOWN_WITH_BACKLOG,
-       F_TRUNCATED_NOALLOC, F_TRUNCATED_DIRECT, F_EXACT_FIT, F_LEVEL_NONE };
+       F_TRUNCATED_NOALLOC, F_TRUNCATED_DIRECT, F_EXACT_FIT, F_LEVEL_NONE, F_DEEP_BACKLOG };
 
 /* ================================================================== recording writer */
 #define MAX_REC 4096
@@ -42,6 +42,7 @@ static uint64_t s_arena_used;
 static uint64_t s_rec_overflow;
 static uint64_t s_in_writer, s_writer_overlaps;
 static size_t s_plain_last_len; /* plain on purpose, see writer_write */
+static int s_writer_stall, s_writer_gate;
 
 static int writer_write(struct aws_log_writer *writer, const struct aws_string *output) {
     (void)writer;
@@ -53,6 +54,14 @@ static int writer_write(struct aws_log_writer *writer, const struct aws_string *
         __atomic_fetch_add(&s_writer_overlaps, 1, __ATOMIC_RELAXED);
     }
     s_plain_last_len = output->len;
+    if (__atomic_load_n(&s_writer_stall, __ATOMIC_RELAXED)) {
+        /* hostile but legal writer: the first write blocks until the senders are done, so that clean-up meets a deep
+         * backlog ("clean-up flushes everything already accepted") */
+        for (int spins = 0; spins < 400000 && !__atomic_load_n(&s_writer_gate, __ATOMIC_ACQUIRE); ++spins) {
+            struct timespec ts = {0, 50000};
+            nanosleep(&ts, NULL);
+        }
+    }
     for (volatile int spin = 0; spin < 200; ++spin) {
     }
     uint64_t i = __atomic_fetch_add(&s_nrec, 1, __ATOMIC_RELAXED);
@@ -79,7 +88,7 @@ static struct aws_log_writer_vtable s_writer_vtable = {.write = writer_write, .c
 
 /* ================================================================== threaded scenarios */
 #define MAX_SENDERS 8
-#define MAX_MSGS 64
+#define MAX_MSGS 400
 
 static const aws_log_subject_t SUBJECTS[] = {AWS_LS_COMMON_GENERAL, AWS_LS_COMMON_TASK_SCHEDULER, AWS_LS_COMMON_THREAD, AWS_LS_COMMON_MEMTRACE,
                                              AWS_LS_COMMON_XML_PARSER, AWS_LS_COMMON_IO, AWS_LS_COMMON_BUS, AWS_LS_COMMON_TEST, AWS_LS_COMMON_JSON_PARSER,
@@ -330,6 +339,13 @@ static void thr_case(void) {
     bool background = mon_chance(r, 7, 10);
     T.nsenders = 1 + (int)mon_below(r, MAX_SENDERS);
     T.nphases = 1 + (int)mon_below(r, 3);
+    /* burst scenarios: many short messages; with a background channel the writer may additionally be stalled until the
+     * senders are done, so that hundreds of lines are still queued when clean-up is called */
+    bool burst = mon_chance(r, 1, 4);
+    bool stall = burst && background && mon_chance(r, 2, 3);
+    if (stall) {
+        T.nphases = 1; /* a stalled writer and barriers do not mix: senders would wait for nothing, but keep it simple */
+    }
     for (int ph = 0; ph < T.nphases; ++ph) {
         unsigned pick = (unsigned)mon_below(r, 10);
         T.phase_level[ph] = pick == 0 ? AWS_LL_NONE : pick < 3 ? AWS_LL_TRACE : (int)mon_range(r, AWS_LL_FATAL, AWS_LL_TRACE);
@@ -343,7 +359,7 @@ static void thr_case(void) {
         s->idx = i;
         s->seed = mon_rand(r);
         s->pause_mask = (uint32_t)mon_rand(r) & (uint32_t)mon_rand(r);
-        s->nmsgs = 1 + (int)mon_below(r, MAX_MSGS / (T.nsenders > 4 ? 2 : 1));
+        s->nmsgs = burst ? 100 + (int)mon_below(r, MAX_MSGS - 100) : 1 + (int)mon_below(r, 64 / (T.nsenders > 4 ? 2 : 1));
         for (int n = 0; n < s->nmsgs; ++n) {
             struct msg *m = &s->msgs[n];
             m->level = (int)mon_range(r, AWS_LL_FATAL, AWS_LL_TRACE);
@@ -351,6 +367,9 @@ static void thr_case(void) {
             m->shape = (int)mon_below(r, 4);
             unsigned lp = (unsigned)mon_below(r, 100);
             m->plen = lp < 8 ? 0 : lp < 80 ? (size_t)mon_below(r, 200) : lp < 95 ? (size_t)mon_below(r, 3000) : (size_t)mon_below(r, 20001);
+            if (burst && m->plen > 120) {
+                m->plen = (size_t)mon_below(r, 120);
+            }
             if (total_bytes + m->plen > (4u << 20)) {
                 m->plen = 10;
             }
@@ -395,6 +414,8 @@ static void thr_case(void) {
         return;
     }
     aws_logger_set(&T.logger);
+    __atomic_store_n(&s_writer_gate, 0, __ATOMIC_RELAXED);
+    __atomic_store_n(&s_writer_stall, stall ? 1 : 0, __ATOMIC_RELAXED);
     pthread_barrier_init(&T.barrier, NULL, (unsigned)T.nsenders + 1);
     pthread_t th[MAX_SENDERS];
     for (int i = 0; i < T.nsenders; ++i) {
@@ -417,6 +438,7 @@ static void thr_case(void) {
     }
     /* shut down immediately after the last send returned: the background thread may be mid-batch */
     uint64_t written_before_cleanup = __atomic_load_n(&s_nrec, __ATOMIC_RELAXED);
+    __atomic_store_n(&s_writer_gate, 1, __ATOMIC_RELEASE);
     aws_logger_set(NULL);
     aws_log_channel_clean_up(&channel);
     uint64_t t_cleanup_ret = mon_ev_now();
@@ -526,6 +548,11 @@ static void thr_case(void) {
             mon_flag(F_LEVEL_NONE);
         }
     }
+    __atomic_store_n(&s_writer_stall, 0, __ATOMIC_RELAXED);
+    if (background && (uint64_t)expected_lines > written_before_cleanup + 64) {
+        mon_flag(F_DEEP_BACKLOG);
+    }
+    mon_count_max("max_lines_still_queued_at_clean_up", (uint64_t)expected_lines > written_before_cleanup ? (uint64_t)expected_lines - written_before_cleanup : 0);
     if (background && written_before_cleanup < (uint64_t)expected_lines) {
         mon_flag(F_SHUTDOWN_WITH_BACKLOG);
         mon_count("lines_flushed_by_clean_up", (uint64_t)expected_lines - written_before_cleanup);
@@ -746,7 +773,7 @@ int main(int argc, char **argv) {
     s_arena = malloc(ARENA_SIZE);
     static const char *names[] = {"background_channel", "foreground_channel", "several_senders", "message_over_8000_bytes", "filtered_calls", "level_changed_at_barrier",
                                   "empty_message", "clean_up_with_lines_still_queued", "noalloc_line_truncated", "direct_line_truncated", "line_fills_buffer_exactly",
-                                  "level_none"};
+                                  "level_none", "clean_up_with_more_than_64_lines_queued"};
     for (int i = 0; i < (int)(sizeof(names) / sizeof(names[0])); ++i) {
         mon_flag_name(i, names[i]);
     }
